@@ -59,8 +59,8 @@ def cerrJson (e : CErr) : Json :=
   | .panic m => clsOut "load-panic" m
   | .domain m => clsOut "model-domain" m
 
-def renderModel (doc : List Node) (data : Json) (extraFuncs : List String) : Json :=
-  let env : CEnv := { funcs := engineFuncs ++ extraFuncs, parserFuncs := engineFuncs ++ extraFuncs ++ builtinNames }
+def renderModel (doc : List Node) (data : Json) (extraFuncs : List String) (debug : Bool := false) : Json :=
+  let env : CEnv := { funcs := engineFuncs ++ extraFuncs, parserFuncs := engineFuncs ++ extraFuncs ++ builtinNames, debug := debug }
   match compileDoc env doc with
   | .error e => cerrJson e
   | .ok c =>
@@ -117,6 +117,10 @@ def runRender (c : Json) : Json × Json :=
   | .ok doc =>
     let spec := if jstr c "oracle" == "js-expr" then jsSpec doc (jget c "data")
       else if jstr c "oracle" == "pug" then pugSpec doc (jget c "data") else .null
-    (renderModel doc (jget c "data") (jstrs c "funcs"), spec)
+    if jstr c "modes" == "both" then
+      (Json.mkObj [("prod", renderModel doc (jget c "data") (jstrs c "funcs") false),
+                   ("debug", renderModel doc (jget c "data") (jstrs c "funcs") true)], spec)
+    else
+    (renderModel doc (jget c "data") (jstrs c "funcs") (jbool c "debug"), spec)
 
 end Pug.Driver
